@@ -148,6 +148,12 @@ func (t *Transaction) Validate() error {
 	} else if t.Input == (TypedAddressAmountTuple{}) { // TODO: is there a better way to check for zero value struct?
 		return fmt.Errorf("invalid input: empty")
 	}
+	// A missing "type" member leaves the zero value behind: the JSON length accounting can be
+	// satisfied without it, because it counts the length of the invalid ticker's error string.
+	if t.Input.Type <= PTickerInvalid || PTickerMax <= t.Input.Type {
+		return fmt.Errorf("invalid input: unknown token type")
+	}
+
 	if len(t.Transfers) == 0 && t.Conversion == PTickerInvalid {
 		return fmt.Errorf("at least one transfer or exactly one conversion type required")
 	} else if 0 < len(t.Transfers) && PTickerInvalid < t.Conversion {
